@@ -131,6 +131,7 @@ type World struct {
 	Provided         map[string]int // path -> Provide() calls
 	Prelaunched      map[string]int
 	Decisions        []string // "supervisor<-child:decision"
+	BeforeDecision   func(supervisor, child string) // runs inside the scripted decision maker before it answers
 	InHandler        map[string]int
 	Quiet            bool
 }
@@ -510,6 +511,9 @@ func (w *World) Decider(supervisor string, oneForAll bool, decision vivid.Superv
 		c := "?"
 		if f := ctx.Child().First(); f != nil {
 			c = f.GetPath()
+		}
+		if w.BeforeDecision != nil {
+			w.BeforeDecision(supervisor, c) // a decision maker is user code: it may take arbitrarily long
 		}
 		w.Decisions = append(w.Decisions, fmt.Sprintf("%s<-%s:%s", supervisor, c, decision.String()))
 		if !w.Quiet {
